@@ -3,7 +3,7 @@
 # Runs the quick checks against /repo's HEAD with the patch applied.  Default: in a scratch
 # worktree (VERIF_REPO), so that concurrent work on /repo is not disturbed; with SEED_INPLACE=1 the
 # patch is applied to /repo itself (git -C /repo apply) and undone afterwards.
-patch="$1"; shift
+patch="$(readlink -f "$1")"; shift
 cd /verif
 if [ "$SEED_INPLACE" = 1 ]; then
   git -C /repo diff --quiet || { echo "/repo is dirty"; exit 2; }
@@ -11,7 +11,7 @@ if [ "$SEED_INPLACE" = 1 ]; then
   for p in "$@"; do echo "== $p"; ./check "$p" --tier quick 2>/dev/null | grep -E "VIOLATION|KNOWN" | cut -c1-200; done
   git -C /repo checkout -- . && git -C /repo clean -fdq
 else
-  W=/tmp/seedrepo
+  W=/tmp/seedrepo.$$
   git -C /repo worktree remove --force $W 2>/dev/null
   git -C /repo worktree add -q $W HEAD || exit 2
   git -C $W apply "$patch" || { echo "patch does not apply"; git -C /repo worktree remove --force $W; exit 2; }
